@@ -128,15 +128,18 @@ def run(ctx):
         runs = ctx.econc(exe, drv, [mode], seed, cnt, env=env)
         _classify(ctx, mode, env, runs, dist, distinct, samples)
     n = 300 if ctx.quick else 5000
-    if ctx.broken or ctx.failing:
-        n *= 5
+    known = set(k for k, _ in ctx._known())
+    if ctx.broken or any(k not in known for k, _ in ctx.failing):
+        n *= 5      # something new is wrong: look harder for a concrete failing input
     seed0 = ctx.seed * 1000003
+    # samedata / inject exercise the two known findings (keys oracle:samedata:code, oracle:inject:dup-flush); any other
+    # oracle kind, verdict or replay divergence in these modes is a violation like everywhere else
     plan = [("dep", 3 * n, {}), ("dep", n, {"VRT_STRATEGY": "pct"}), ("graph", n, {}), ("pool", n, {}),
-            ("pool", n // 2, {"VRT_STRATEGY": "pct"})]
+            ("pool", n // 2, {"VRT_STRATEGY": "pct"}), ("samedata", n // 3, {}), ("inject", n // 3, {})]
     for mode, cnt, env in plan:
         runs = ctx.econc(exe, drv, [mode], seed0, cnt, env=env)
         _classify(ctx, mode, env, runs, dist, distinct, samples)
-        if len(ctx.failing) + len(ctx.broken) > 8:
+        if len([k for k, _ in ctx.failing if k not in known]) + len(ctx.broken) > 8:
             break
     ctx.cov["distribution"] = dist
     ctx.cov["distinct_nontrivial"] = len(distinct)
